@@ -431,6 +431,34 @@ impl QueryRouter {
         }
     }
 
+    /// Determines if anything inside the query, at any depth, writes or locks rows:
+    /// a data-modifying CTE, SELECT ... INTO, or FOR UPDATE/SHARE in a subquery.
+    fn needs_primary(q: &sqlparser::ast::Query) -> bool {
+        use sqlparser::ast::{Visit, Visitor};
+        use std::ops::ControlFlow;
+
+        struct WritesOrLocks;
+
+        impl Visitor for WritesOrLocks {
+            type Break = ();
+
+            fn pre_visit_query(&mut self, q: &sqlparser::ast::Query) -> ControlFlow<Self::Break> {
+                let select_into = match q.body.as_ref() {
+                    SetExpr::Select(select) => select.into.is_some(),
+                    _ => false,
+                };
+
+                if !q.locks.is_empty() || select_into || QueryRouter::is_mutation_query(q) {
+                    ControlFlow::Break(())
+                } else {
+                    ControlFlow::Continue(())
+                }
+            }
+        }
+
+        q.visit(&mut WritesOrLocks).is_break()
+    }
+
     fn database_activity_cache(&self) -> Cache<String, DatabaseActivityState> {
         DATABASE_ACTIVITY_CACHE
             .get_or_init(|| {
@@ -540,7 +568,7 @@ impl QueryRouter {
                     let has_locks = !query.locks.is_empty();
                     let has_mutation = Self::is_mutation_query(query);
 
-                    if has_locks || has_mutation {
+                    if has_locks || has_mutation || Self::needs_primary(query) {
                         self.active_role = Some(Role::Primary);
                     } else if !visited_write_statement {
                         // If we already visited a write statement, we should be going to the primary.
